@@ -1,8 +1,11 @@
 (* Property C12: space-filling samplers have their defining coverage structure.
    Statements over the exact-rational model Model/Samplers.v (regime R3); proofs in
    Proofs/SamplersProofs.v.  Every theorem is unbounded in the sample count, the parameter count,
-   the bounds and the oracle tapes, except C12_primes_correct / C12_halton_radical_inverse whose
-   "the bases are the first primes" part is proved for up to 300 parameters (bound in the statement). *)
+   the bounds and the oracle tapes, except C12_primes_correct and C12_halton_radical_inverse, which are
+   stated for up to 300 parameters: the hypothesis `length bs <= 300` (needed for "the bases are the first
+   primes") stands in front of the WHOLE statement of C12_halton_radical_inverse.  The radical-inverse law
+   for any list of bases the generator returns, without that bound, is Proofs/SamplersProofs.v
+   halton_radical_inverse (not restated here). *)
 From Coq Require Import List ZArith QArith Qabs Bool Arith Permutation SetoidList.
 From Artap Require Import Model.Samplers Proofs.SamplersProofs.
 Import ListNotations.
